@@ -891,7 +891,10 @@ inline int Runner::main() {
   for (auto &kv : first) {
     const Violation &v = kv.second;
     uint64_t cnt = counter("fail:" + v.sig);
-    if (cnt == 0) cnt = 1;
+    if (cnt == 0) {
+      // crashes and hangs are recorded by the parent, one entry per case
+      for (auto &o : violations_) cnt += o.sig == v.sig;
+    }
     Known *k = match_known(v.sig);
     const Space *sp = nullptr;
     for (auto &s : spaces) if (s.name == v.space) sp = &s;
